@@ -76,6 +76,27 @@ func scenario(seed int64, k int, res *l2.Result) {
 		good = phase("growth", nt.Height, ok, stuck, last)
 		tip = nt
 	}
+	// Drip: single blocks announced one at a time with the chain at rest in
+	// between; each must be reported (block AND filter header) before the
+	// next one is revealed, so a wake-up lost between the header and the
+	// filter-header machinery is not papered over by the next announcement.
+	if good && k%2 == 1 {
+		nDrip := 25
+		if plan.SilentPeers() > 0 {
+			nDrip = 4 // every filter-header round then waits for a silent peer's timeout
+		}
+		if plan.OldBelow > 0 {
+			nDrip = 5 // widely spaced blocks: stay clear of the future-timestamp limit
+		}
+		for i := 0; i < nDrip && good; i++ {
+			nt := w.G.Extend(tip, 1, 0)[0]
+			b.SetHonestTip(nt, plan.Announce)
+			ok, stuck, last = b.AwaitTip(nt, deadline)
+			good = phase("drip", nt.Height, ok, stuck, last)
+			tip = nt
+			res.Count("drip_blocks", 1)
+		}
+	}
 	if good && plan.ReorgDepth > 0 && int(tip.Height) > plan.ReorgDepth+1 {
 		f := tip.Ancestor(tip.Height - int32(plan.ReorgDepth))
 		br := w.G.Extend(f, plan.ReorgDepth+1, 0)
